@@ -205,6 +205,13 @@ impl Proactor {
     /// but just don't return from [`Proactor::poll`].
     pub fn cancel<T: OpCode>(&mut self, key: Key<T>) -> Option<BufResult<usize, T>> {
         instrument!(compio_log::Level::DEBUG, "cancel", ?key);
+        #[cfg(compio_verif)]
+        verif::emit(
+            verif::Kind::CancelReq,
+            key.as_raw() as u64,
+            0,
+            key.has_result() as i64,
+        );
         if key.set_cancelled() {
             return None;
         }
@@ -230,6 +237,13 @@ impl Proactor {
         let Some(key) = token.upgrade() else {
             return false;
         };
+        #[cfg(compio_verif)]
+        verif::emit(
+            verif::Kind::CancelReq,
+            key.as_raw() as u64,
+            1,
+            key.has_result() as i64,
+        );
         if key.set_cancelled() || key.has_result() {
             return false;
         }
@@ -288,6 +302,18 @@ impl Proactor {
     /// driver will wake up the driver fd through syscalls after this method is
     /// called.
     pub fn flush(&mut self) -> bool {
+        #[cfg(compio_verif)]
+        {
+            let notified = self.driver.flush();
+            verif::emit(
+                verif::Kind::FlushExit,
+                self as *const Self as usize as u64,
+                notified as u64,
+                0,
+            );
+            return notified;
+        }
+        #[cfg(not(compio_verif))]
         self.driver.flush()
     }
 
@@ -295,6 +321,20 @@ impl Proactor {
     /// You need to call [`Proactor::pop`] to get the pushed
     /// operations.
     pub fn poll(&mut self, timeout: Option<Duration>) -> io::Result<()> {
+        #[cfg(compio_verif)]
+        {
+            let this = self as *const Self as usize as u64;
+            verif::emit(
+                verif::Kind::PollEnter,
+                this,
+                timeout.map_or(u64::MAX, |t| t.as_nanos() as u64),
+                0,
+            );
+            let res = self.driver.poll(timeout);
+            verif::emit(verif::Kind::PollExit, this, res.is_ok() as u64, 0);
+            return res;
+        }
+        #[cfg(not(compio_verif))]
         self.driver.poll(timeout)
     }
 
